@@ -224,7 +224,7 @@ static inline void shrink(std::vector<uint32_t>& pt, std::string& sched, const R
 
 static inline int drive_main(const DriveOpts& o) {
     long evals = 0, inconcl = 0, unstable = 0, shrink_runs = 0; std::map<std::string, long> cls_count, strat_count, incon_kinds, sums;
-    std::set<uint64_t> nt_hashes; std::vector<std::string> samples_nt, samples_any;
+    std::set<uint64_t> nt_hashes; std::vector<std::string> samples_nt, samples_any, incon_samples;
     std::string viol_json; bool found = false;
     struct timespec ts0; clock_gettime(CLOCK_MONOTONIC, &ts0);
     auto elapsed = [&]() { struct timespec t; clock_gettime(CLOCK_MONOTONIC, &t); return (double)(t.tv_sec - ts0.tv_sec) + (t.tv_nsec - ts0.tv_nsec) * 1e-9; };
@@ -255,7 +255,7 @@ static inline int drive_main(const DriveOpts& o) {
             if (si == 0) take_profile(pf, r);
             strat_count[kvs(sched, "strat", "walk") + (sched.find("stall=") != std::string::npos ? "+stall" : "") + "/" + kvs(sched, "mem", "sc")]++;
             for (auto& kv : r.st) if (kv.first.rfind("n_", 0) == 0 || kv.first == "steps") sums[kv.first] += kv.second;
-            if (r.verdict == "INCONCLUSIVE") { inconcl++; incon_kinds[r.kind]++; continue; }
+            if (r.verdict == "INCONCLUSIVE") { inconcl++; incon_kinds[r.kind]++; if (incon_samples.size() < 2) incon_samples.push_back(text + "# " + r.kind + " " + r.detail + "\n"); continue; }
             if (r.verdict == "OK") {
                 bool nt = r.st.count("nt") && r.st["nt"] > 0;
                 if (nt) { nt_hashes.insert(fnv(text)); if (samples_nt.size() < 2) samples_nt.push_back(text); }
@@ -286,6 +286,7 @@ static inline int drive_main(const DriveOpts& o) {
     auto mapj = [&](const char* name, std::map<std::string, long>& m) { j += std::string("\"") + name + "\":{"; bool f = true; for (auto& kv : m) { j += (f ? "" : ","); j += jesc(kv.first) + ":" + std::to_string(kv.second); f = false; } j += "},"; };
     mapj("classes", cls_count); mapj("strategies", strat_count); mapj("inconclusive_kinds", incon_kinds); mapj("sums", sums);
     j += "\"samples\":["; { bool f = true; for (auto& s : samples_nt) { j += (f ? "" : ","); j += jesc(s); f = false; } for (auto& s : samples_any) { j += (f ? "" : ","); j += jesc(s); f = false; } } j += "],";
+    j += "\"inconclusive_samples\":["; { bool f = true; for (auto& s : incon_samples) { j += (f ? "" : ","); j += jesc(s); f = false; } } j += "],";
     j += "\"violations\":[" + viol_json + "]}";
     puts(j.c_str());
     return found ? 1 : 0;
